@@ -377,6 +377,9 @@ impl RingView {
         }
         Some(RingView { base: rings[0].0 as *const u8, p })
     }
+    pub fn base(&self) -> *mut u8 {
+        self.base as *mut u8
+    }
     fn word(&self, off: u32) -> u32 {
         unsafe { (*(self.base.add(off as usize) as *const std::sync::atomic::AtomicU32)).load(std::sync::atomic::Ordering::Acquire) }
     }
